@@ -19,7 +19,7 @@ RULE = ("valid half: every encoding from the grammar (<=3 chunks of 1/2/10/16 by
         "must-reject(size-not-hex, no-crlf-after-data, ext-bad-byte) / incomplete. "
         "non-trivial = distinct (encoding, set of framing elements that a cut falls strictly inside) and distinct mutants "
         "that the reference puts in a must-reject class")
-BOUNDS = {"quick": "18360 encodings; <=2 cuts when <=56 bytes else 1 cut, + bytewise; 64 bases x all single-site mutations x all 1-cuts (2-cuts when <=40 bytes)",
+BOUNDS = {"quick": "18360 encodings; <=2 cuts when <=44 bytes else 1 cut, + bytewise; 64 bases x all single-site mutations x all 1-cuts (2-cuts when <=24 bytes)",
           "thorough": "18360 encodings; <=2 cuts all lengths, <=3 cuts when <=32 bytes, + bytewise; same mutation space with every 2-cut"}
 ASSUMPTIONS = [
     "the caller stops delivering once finishCallback has fired (HTTPChannel does); bytes of later deliveries count as extra",
@@ -136,7 +136,7 @@ def decode(segs, eof=True):
 PFX = "_ChunkedTransferDecoder:"
 
 
-def culprit(data, parts):
+def culprit(data, parts, cuts=()):
     """For a valid encoding that is rejected: which element completes when the decoder raises."""
     from checks._http import _parse_ext
     from twisted.web.http import _ChunkedTransferDecoder
@@ -148,8 +148,9 @@ def culprit(data, parts):
         except Exception:
             k = i
             break
-    if k is None:
-        return "only-some-splits"
+    if k is None:      # byte-at-a-time decodes: the failure depends on where the cuts fall
+        lm = label_map(parts)
+        return "split-in=" + "+".join(sorted(set(lm.get(p, "boundary") for p in cuts)))
     off, prev = 0, None
     for lab, b in parts:
         if off + len(b) > k:
@@ -171,7 +172,7 @@ def judge_valid(data, enc_len, body, extra, cuts, parts):
     segs = segs_of(data, cuts)
     got, fins, order_ok, err, leftover, eof_err = decode(segs)
     if err is not None:
-        return [(PFX + "valid-rejected:" + culprit(data, parts), "%s raised on %r split %r" % (err, data, cuts))]
+        return [(PFX + "valid-rejected:" + culprit(data, parts, cuts), "%s raised on %r split %r" % (err, data, cuts))]
     out = []
     if len(fins) != 1:
         out.append((PFX + ("finish-never" if not fins else "finish-twice"), "finishCallback fired %d times on %r split %r" % (len(fins), data, cuts)))
@@ -213,11 +214,9 @@ def judge_mutant(data, cuts, ref):
     w = "stream %r split %r" % (data, cuts)
     st = ref["status"]
     if st == "bad":
-        if err is None or fins:
-            return [(PFX + "not-rejected:" + ref["cls"], "reference: %s at offset %d; decoder raised %s, finish fired %d times, delivered %r; %s" % (
-                ref["cls"], ref["at"], err, len(fins), got, w))]
-        if not ref["body"].startswith(got):
-            return [(PFX + "wrong-body-before-rejection", "delivered %r, reference had decoded %r; %s" % (got, ref["body"], w))]
+        if err is None or fins or not ref["body"].startswith(got):
+            return [(PFX + "not-rejected:" + ref["cls"], "reference: %s at offset %d after decoding %r; decoder raised %s, finish fired %d times, delivered %r; %s" % (
+                ref["cls"], ref["at"], ref["body"], err, len(fins), got, w))]
         return []
     if st == "incomplete":
         out = []
@@ -305,7 +304,7 @@ def shards(tier, seed):
 
 def _maxcuts(n, tier):
     if tier == "quick":
-        return 2 if n <= 56 else 1
+        return 2 if n <= 44 else 1
     return 3 if n <= 32 else 2
 
 
@@ -327,7 +326,7 @@ def run_shard(shard, tier, seed):
                 st.nt(("mut", m))
             n = len(m)
             cs = [(), tuple(range(1, n))] + [(p,) for p in range(1, n)]
-            if tier != "quick" or n <= 40:
+            if tier != "quick" or n <= 24:
                 cs += list(itertools.combinations(range(1, n), 2))
             for cuts in cs:
                 st.evaluations += 1
